@@ -1222,6 +1222,36 @@ def run(tier, replay=None):
       with open(os.path.join(common.REPLAYS, '%s-known-%s.json' % (PID, key.replace(':', '-'))), 'w') as f:
         json.dump(dict(d, property=PID, key=key), f, indent=1, sort_keys=True, default=str)
 
+  # --- clash reached through a chain of predicates, one of whose members has several rules: whatever
+  #     the order of the statements, the program must be rejected (part b)
+  import itertools
+  fam_r = common.rng('c05-chain')
+  stats['chain_family_orders'] = 0
+  for inst in range(3 if tier == 'quick' else 40):
+    depth = fam_r.choice([1, 2, 2, 3])
+    lit_a, lit_b = fam_r.choice([('1', '"a"'), ('"s"', '2'), ('true', '"t"'), ('3', 'true')])
+    names = ['Ca%d' % i for i in range(depth + 1)]
+    stmts = ['%s(%s);' % (names[0], lit_a)]
+    for i in range(depth):
+      extra = fam_r.choice(['', ', x == x'])
+      stmts.append('%s(x) :- %s(x)%s;' % (names[i], names[i + 1], extra))
+    stmts.append('%s(%s);' % (names[depth], lit_b))
+    if fam_r.random() < 0.5:   # an unrelated, well-typed user of the chain head
+      stmts.append('Cu(y) :- %s(y);' % names[0])
+    orders = list(itertools.permutations(stmts))
+    if len(orders) > 24:
+      orders = fam_r.sample(orders, 24)
+    for order in orders:
+      text = HEADER + '\n'.join(order) + '\n'
+      fc = full_check(text, [names[0]], compile_preds=False)
+      stats['chain_family_orders'] += 1
+      if fc['status'] != 'TypeError':
+        report('chain-clash:%s' % ('accepted' if fc['status'] == 'ok' else fc['status']),
+               {'kind': 'reject', 'text': text, 'observed': fc,
+                'law': '(b) a predicate forced to two different ground types (here through a chain of rules) is '
+                       'rejected with a type error, whatever the order of the rules'})
+        break
+
   for name, body, exp, n_comb in FIXED:
     text = HEADER + body
     fc = full_check(text, list(exp), compile_preds=True)
